@@ -158,7 +158,7 @@ func runTraceAck(c *Ctx, r *RuleRun) {
 					return cm.Y != nil && cm.Op == "==" && ((cm.X == errv && isNilConst(cm.Y)) || (cm.Y == errv && isNilConst(cm.X)))
 				})
 			}
-			q := PathQuery{P: p, Fn: g, Avoid: isEvent, Target: func(i ssa.Instruction) bool { return i == ssa.Instruction(ret) }}
+			q := PathQuery{P: p, Fn: g, Avoid: isEvent, Target: func(i ssa.Instruction) bool { return i == ssa.Instruction(ret) }, SuccessOnly: true}
 			if w := q.FindPath(); w != nil {
 				all = false
 				if witness == nil {
@@ -300,6 +300,26 @@ func runReadSources(c *Ctx, r *RuleRun) {
 					return ""
 				case x.Call.IsInvoke():
 					return "the result of " + x.Call.Method.Name()
+				case h != nil && h.Pkg == g.Pkg && len(h.Blocks) > 0 && depth < 6:
+					// a helper of the package that shapes the answer: what it returns must itself be derived from
+					// lookups or from its parameters, and what it is handed must be
+					for _, b := range h.Blocks {
+						ret, ok := b.Instrs[len(b.Instrs)-1].(*ssa.Return)
+						if !ok || b == h.Recover {
+							continue
+						}
+						for _, rv := range ret.Results {
+							if s := check(rv, depth+2); s != "" {
+								return s
+							}
+						}
+					}
+					for _, arg := range x.Call.Args {
+						if s := check(arg, depth+1); s != "" {
+							return s
+						}
+					}
+					return ""
 				default:
 					if obj := p.CalleeObj(x); obj != nil {
 						return "the result of " + obj.Name()
@@ -342,72 +362,30 @@ func runConfOnlyIf(c *Ctx, r *RuleRun) {
 	f := a.hasConflict
 	fn := p.FnName(f)
 	n := 0
-	isHit := func(cm Cmp) bool {
-		if cm.Y != nil || cm.Op != "true" {
-			return false
-		}
-		ex, ok := cm.X.(*ssa.Extract)
-		if !ok || ex.Index != 1 {
-			return false
-		}
-		lk, ok := ex.Tuple.(*ssa.Lookup)
-		if !ok {
-			return false
-		}
-		_, isMap := lk.X.Type().Underlying().(*types.Map)
-		return isMap
-	}
-	eachInstr(f, func(ins ssa.Instruction) {
-		ret, ok := ins.(*ssa.Return)
-		if !ok || len(ret.Results) != 1 {
-			return
-		}
-		// a result variable: every way it becomes true lies behind a fingerprint hit
-		if ph, isPhi := retOperand(ret, 0).(*ssa.Phi); isPhi {
-			seen := map[*ssa.Phi]bool{}
-			var walk func(q *ssa.Phi) (ok, any, unknown bool)
-			walk = func(q *ssa.Phi) (bool, bool, bool) {
-				okAll, any, unknown := true, false, false
-				if seen[q] {
-					return true, false, false
-				}
-				seen[q] = true
-				for i, e := range q.Edges {
-					pred := q.Block().Preds[i]
-					switch {
-					case isConstBool(e, false):
-					case isConstBool(e, true):
-						any = true
-						if len(pred.Instrs) == 0 || !hasFact(pred.Instrs[len(pred.Instrs)-1], isHit) {
-							okAll = false
-						}
-					default:
-						if q2, isPhi2 := e.(*ssa.Phi); isPhi2 {
-							o2, a2, u2 := walk(q2)
-							okAll = okAll && o2
-							any = any || a2
-							unknown = unknown || u2
-						} else {
-							unknown = true
-						}
-					}
-				}
-				return okAll, any, unknown
-			}
-			okAll, any, unknown := walk(ph)
-			if any && !unknown {
-				n++
-				r.Check(okAll, fn, "refusal only on a fingerprint hit", p.Pos(instrPos(ret)), "the result becomes true only behind a successful lookup of a read fingerprint in a committed write set", "a conflict is reported without a read fingerprint having been found in a committed write set: transactions are refused although nothing they read was overwritten")
-			}
-			return
-		}
-		if !isConstBool(retOperand(ret, 0), true) {
-			return
-		}
-		n++
-		hit := hasFact(ret, func(cm Cmp) bool {
+	// a hit: the comma-ok result of a map lookup is true, or a helper that itself answers true only behind a hit does
+	type verdict struct{ ok, any bool }
+	memo := map[*ssa.Function]*verdict{}
+	var analyse func(g *ssa.Function, depth int, report bool) verdict
+	var isHit func(depth int) func(cm Cmp) bool
+	isHit = func(depth int) func(cm Cmp) bool {
+		return func(cm Cmp) bool {
 			if cm.Y != nil || cm.Op != "true" {
 				return false
+			}
+			if call, isCall := cm.X.(*ssa.Call); isCall && depth < 3 {
+				cs := p.Callees(call)
+				if len(cs) == 0 {
+					return false
+				}
+				for _, h := range cs {
+					if h.Pkg != f.Pkg || !resultIs(h, types.Bool) {
+						return false
+					}
+					if v := analyse(h, depth+1, false); !v.ok || !v.any {
+						return false
+					}
+				}
+				return true
 			}
 			ex, ok := cm.X.(*ssa.Extract)
 			if !ok || ex.Index != 1 {
@@ -419,9 +397,95 @@ func runConfOnlyIf(c *Ctx, r *RuleRun) {
 			}
 			_, isMap := lk.X.Type().Underlying().(*types.Map)
 			return isMap
+		}
+	}
+	analyse = func(g *ssa.Function, depth int, report bool) verdict {
+		if v, ok := memo[g]; ok && !report {
+			return *v
+		}
+		res := &verdict{ok: true}
+		memo[g] = &verdict{} // recursion: not a hit
+		gn := p.FnName(g)
+		hitFact := isHit(depth)
+		eachInstr(g, func(ins ssa.Instruction) {
+			ret, ok := ins.(*ssa.Return)
+			if !ok || len(ret.Results) != 1 {
+				return
+			}
+			// a result variable: every way it becomes true lies behind a fingerprint hit
+			if ph, isPhi := retOperand(ret, 0).(*ssa.Phi); isPhi {
+				seen := map[*ssa.Phi]bool{}
+				var walk func(q *ssa.Phi) (ok, any, unknown bool)
+				walk = func(q *ssa.Phi) (bool, bool, bool) {
+					okAll, any, unknown := true, false, false
+					if seen[q] {
+						return true, false, false
+					}
+					seen[q] = true
+					for i, e := range q.Edges {
+						pred := q.Block().Preds[i]
+						switch {
+						case isConstBool(e, false):
+						case isConstBool(e, true):
+							any = true
+							if len(pred.Instrs) == 0 || !hasFact(pred.Instrs[len(pred.Instrs)-1], hitFact) {
+								okAll = false
+							}
+						default:
+							if q2, isPhi2 := e.(*ssa.Phi); isPhi2 {
+								o2, a2, u2 := walk(q2)
+								okAll = okAll && o2
+								any = any || a2
+								unknown = unknown || u2
+							} else {
+								unknown = true
+							}
+						}
+					}
+					return okAll, any, unknown
+				}
+				okAll, any, unknown := walk(ph)
+				if unknown {
+					res.ok = false
+				}
+				if any && !unknown {
+					res.any = true
+					res.ok = res.ok && okAll
+					if report {
+						n++
+						r.Check(okAll, gn, "refusal only on a fingerprint hit", p.Pos(instrPos(ret)), "the result becomes true only behind a successful lookup of a read fingerprint in a committed write set", "a conflict is reported without a read fingerprint having been found in a committed write set: transactions are refused although nothing they read was overwritten")
+					}
+				}
+				return
+			}
+			if isConstBool(retOperand(ret, 0), false) {
+				return
+			}
+			if !isConstBool(retOperand(ret, 0), true) {
+				// the answer of a helper handed on: fine when the helper answers true only behind a hit
+				if call, isCall := retOperand(ret, 0).(*ssa.Call); isCall && hitFact(Cmp{Op: "true", X: call}) {
+					res.any = true
+					if report {
+						n++
+						r.Hold(gn, "refusal only on a fingerprint hit", p.Pos(instrPos(ret)), "hands on the answer of a helper that is true only behind a fingerprint hit")
+					}
+					return
+				}
+				res.ok = false
+				return
+			}
+			res.any = true
+			hit := hasFact(ret, hitFact)
+			res.ok = res.ok && hit
+			if report {
+				n++
+				r.Check(hit, gn, "refusal only on a fingerprint hit", p.Pos(instrPos(ret)), "dominated by a successful lookup of a read fingerprint in a committed write set", "a conflict is reported without a read fingerprint having been found in a committed write set: transactions are refused although nothing they read was overwritten")
+			}
 		})
-		r.Check(hit, fn, "refusal only on a fingerprint hit", p.Pos(instrPos(ret)), "dominated by a successful lookup of a read fingerprint in a committed write set", "a conflict is reported without a read fingerprint having been found in a committed write set: transactions are refused although nothing they read was overwritten")
-	})
+		memo[g] = res
+		return *res
+	}
+	analyse(f, 0, true)
 	if n == 0 {
 		r.Undecided(fn, "refusal only on a fingerprint hit", "", "no `return true`")
 	}
@@ -564,12 +628,43 @@ func runCmpPipe(c *Ctx, r *RuleRun) {
 			return nil
 		}
 		r.Check(entriesArg(discards[0]) == ssa.Value(merges[0]), fn, "version discarding gets the merge result", p.Pos(instrPos(discards[0])), "discardStaleEntries(MergeVersions(…))", "version discarding does not get exactly what the merge returned")
+		type buildSite struct {
+			b   *ssa.Call
+			arg ssa.Value // the entries handed to Build, as a value of the compactor
+		}
+		var sites []buildSite
 		for _, b := range append(callsTo(p, f, build), callsTo(p, f, fbuild)...) {
+			sites = append(sites, buildSite{b, entriesArg(b)})
+		}
+		// Build called in a helper that is handed the entries
+		eachInstr(f, func(ins ssa.Instruction) {
+			cl, ok := ins.(*ssa.Call)
+			if !ok {
+				return
+			}
+			g := cl.Call.StaticCallee()
+			if g == nil || g.Pkg != f.Pkg || g == f || g == discard {
+				return
+			}
+			for _, b := range append(callsTo(p, g, build), callsTo(p, g, fbuild)...) {
+				var arg ssa.Value
+				if pr, isParam := entriesArg(b).(*ssa.Parameter); isParam {
+					for i, q := range g.Params {
+						if q == pr && i < len(cl.Call.Args) {
+							arg = cl.Call.Args[i]
+						}
+					}
+				}
+				sites = append(sites, buildSite{b, arg})
+			}
+		})
+		for _, bs := range sites {
+			b := bs.b
 			what := "table"
 			if b.Call.StaticCallee() == fbuild {
 				what = "filter"
 			}
-			r.Check(entriesArg(b) == ssa.Value(discards[0]), fn, what+" built from what version discarding returned", p.Pos(instrPos(b)), "Build(discardStaleEntries(…))",
+			r.Check(bs.arg == ssa.Value(discards[0]), fn, what+" built from what version discarding returned", p.Pos(instrPos(b)), "Build(discardStaleEntries(…))",
 				"the "+what+" is not built from exactly what version discarding returned: a further step in between (a cap on versions, a filter on entries) drops versions that reads above the watermark still need, or the table and its filter are built from different sets")
 		}
 	}
@@ -791,6 +886,8 @@ func runCmpVictim(c *Ctx, r *RuleRun) {
 					for _, e := range ph.Edges {
 						if isListCall(e, "Front") != nil {
 							front = true
+						} else if nx := isListCall(e, "Next"); nx != nil && len(nx.Call.Args) > 0 && nx.Call.Args[0] == ssa.Value(ph) {
+							// e = e.Next(): the variable of a walk over the whole level, not a choice among its tables
 						} else if e != ssa.Value(ph) {
 							other = true
 						}
